@@ -690,6 +690,63 @@ def gen_tree(rng, max_nodes, max_depth):
     return root
 
 
+SIB_DIRS = ['A', 'B', 'C', 'D']
+SIB_FILES = ['x', 'y', 'z', 'x.txt']
+
+
+def gen_sibling_tree(rng):
+    """2-4 sibling directories whose contents are different subsets of a small set of names"""
+    root = ('d', {})
+    for nm in rng.sample(SIB_DIRS, rng.randint(2, 4)):
+        d = ('d', {})
+        for f in SIB_FILES:
+            if rng.chance(0.45):
+                d[1][f] = ('f', rng.choice(CONTENTS)) if rng.chance(0.85) else ('d', {'x': ('f', '')} if rng.chance(0.5) else {})
+        root[1][nm] = d
+    if rng.chance(0.3):
+        root[1]['r.txt'] = ('f', 'x')
+    if rng.chance(0.2):
+        root[1]['ln'] = ('l', (rng.choice(sorted(root[1])),)) if rng.chance(0.7) else ('l', None)
+    return root
+
+
+def gen_reapplied(rng, base, paths):
+    """ONE files-matcher primitive applied, within one instruction, to each of several directories"""
+    top = [c for c in paths if len(c) == 1]
+    names = sorted({c[-1] for c in paths if len(c) == 2}) or SIB_FILES
+    pool = sorted(set(names) | set(rng.sample(SIB_FILES, 2)))
+    r = rng.below(10)
+    if r < 7:
+        k = rng.randint(1, min(3, len(pool)))
+        fc = [(nm, None if rng.chance(0.6) else ('type', rng.below(2))) for nm in rng.sample(pool, k)]
+        fc = with_duplicates(rng, fc, 0, [])
+        inner = ('matches', rng.chance(0.4), fc)
+    elif r < 8:
+        inner = ('num', rng.below(6), rng.randint(0, 3))
+    elif r < 9:
+        inner = ('any', ('name', 0, rng.below(len(STR_PATS))))
+    else:
+        inner = ('sel', ('type', 0), ('matches', False, [(nm, None) for nm in rng.sample(pool, min(2, len(pool)))]))
+    applied = ('dirc', None if rng.chance(0.7) else (None, None), inner)
+    all_dirs = all(os.path.isdir(os.path.join(base, *c)) for c in top)
+    g = applied if (all_dirs and rng.chance(0.5)) else ('and', ('type', 1), applied)
+    cnt = sum(1 for c in top if os.path.isdir(os.path.join(base, *c)))
+    outer = rng.weighted([('any', 4), ('every', 3), ('selnum', 3), ('notany', 1), ('selempty', 1), ('prune', 1)])
+    if outer == 'any':
+        fsm = ('any', g)
+    elif outer == 'every':
+        fsm = ('every', ('or', ('not', ('type', 1)), applied)) if not all_dirs or rng.chance(0.5) else ('every', applied)
+    elif outer == 'selnum':
+        fsm = ('sel', g, ('num', rng.below(6), rng.randint(0, max(1, cnt))))
+    elif outer == 'notany':
+        fsm = ('not', ('any', g))
+    elif outer == 'selempty':
+        fsm = ('sel', g, ('empty',))
+    else:
+        return ('dirc', (None, None), ('prune', g, ('num', rng.below(6), rng.randint(0, 6))))
+    return ('dirc', None, fsm)
+
+
 def make_tree(base, node, rng):
     """create on disk; links last (their targets must exist for relative links to be meaningful)"""
     links = []
@@ -801,7 +858,21 @@ def gen_fc(rng, depth, rels):
             nm = rng.choice(['a', 'zz', 'sub/a', 'a/../a', '/abs', 'b'])
         fm = None if rng.chance(0.5) else gen_fm(rng, min(depth, 1), rels, rng.chance(0.8))
         out.append((nm, fm))
-    return out
+    return with_duplicates(rng, out, depth, rels)
+
+
+def with_duplicates(rng, fc, depth, rels):
+    """the same name on several lines: a matcher-less line before / after a line with a matcher, two matchers,
+    the same path written differently"""
+    if fc and rng.chance(0.35):
+        for _ in range(rng.randint(1, 2)):
+            nm, fm = rng.choice(fc)
+            nm2 = rng.choice([nm, nm, './' + nm if nm and not nm.startswith('/') else nm])
+            fm2 = None if (fm is not None and rng.chance(0.6)) else (('type', rng.below(3)) if rng.chance(0.6)
+                                                                       else gen_fm(rng, min(depth, 1), rels, True))
+            i = rng.below(len(fc) + 1)
+            fc = fc[:i] + [(nm2, fm2)] + fc[i:]
+    return fc
 
 
 def gen_fsm(rng, depth, rels):
@@ -1029,6 +1100,15 @@ def matcher_features(m, f, under=()):
             matcher_features(x, f, nxt)
 
 
+def has_dup_names(m):
+    if not isinstance(m, tuple) or not m:
+        return False
+    if m[0] == 'matches':
+        ks = [norm_name(nm) for nm, _ in m[2]]
+        return len(ks) != len(set(ks)) or any(has_dup_names(fm) for _, fm in m[2])
+    return any(has_dup_names(x) for x in m[1:] if isinstance(x, tuple))
+
+
 def pats_used(m, acc):
     """acc: dict of sets: 'name' (part, pat), 'path' pat, 'namere' (part, pat), 'pathre' pat, 'opaque' k, 'run' k"""
     if not isinstance(m, tuple) or not m:
@@ -1179,7 +1259,8 @@ def collect(ctx, res, rng, n_p, n_trees, per_tree, scratch_name='c15-run'):
         root_name = 'T%d' % k
         base = os.path.join(run.mhome, root_name)
         quick_small = rng.chance(0.25)
-        pt = gen_tree(rng, 3 if quick_small else 9, 3)
+        siblings = rng.chance(0.2)
+        pt = gen_sibling_tree(rng) if siblings else gen_tree(rng, 3 if quick_small else 9, 3)
         make_tree(base, pt, rng)
         tree_term = term_of_path(base)
         paths = traversal_paths(base)
@@ -1187,7 +1268,10 @@ def collect(ctx, res, rng, n_p, n_trees, per_tree, scratch_name='c15-run'):
         has_link = '(Link' in tree_term
         for q in range(per_tree):
             r = rng.below(100)
-            if r < 8 and paths:
+            n_dirs = sum(1 for c in paths if len(c) == 1 and os.path.isdir(os.path.join(base, *c)))
+            if n_dirs >= 2 and rng.chance(0.65 if siblings else 0.1):
+                m = gen_reapplied(rng, base, paths)
+            elif r < 8 and paths:
                 # the condition that lists exactly the files of the tree (recursively), sometimes spoiled
                 fc = full_condition_of(paths, base)
                 if rng.chance(0.4) and fc:
@@ -1223,6 +1307,10 @@ def collect(ctx, res, rng, n_p, n_trees, per_tree, scratch_name='c15-run'):
             terms.append('(CM (MCase %s %s %s %s %s))' % (ctext(root_name), tree_term, fm_term(m), tabs, VERDICT[o['status']]))
             f = set()
             matcher_features(m, f)
+            if repr(m).count("'dirc'") >= 2 and n_dirs >= 2:
+                f.add('matcher applied to several directories')
+            if has_dup_names(m):
+                f.add('files-condition with a repeated name')
             d['features'] = sorted(f)
             descs.append(d)
             res.count('matcher: verdict ' + o['status'])
@@ -1269,7 +1357,10 @@ def run(ctx, res):
                 'random creation order; expressions of depth <= 3 over every files-matcher and file-matcher of the model (glob and regex '
                 'name/stem/suffixes/suffix/path patterns, contents with is-empty/equals/! and 9 opaque text matchers, run with 5 '
                 'programs, type, dir-contents), every '
-                'min/max depth in {none,0..3}, both nestings of -selection / -with-pruned, FILES-CONDITIONs built from the paths '
+                'min/max depth in {none,0..3}, both nestings of -selection / -with-pruned, 20 % of the trees are 2-4 sibling directories '
+                'holding different subsets of 4 names on which ONE matches / num-files / any-file primitive is applied to every '
+                'directory within one instruction (any / every file, -selection, -with-pruned over dir-contents), 35 % of the '
+                'FILES-CONDITIONs repeat a name (matcher-less line before / after a line with a matcher, ./ variant),  FILES-CONDITIONs built from the paths '
                 'of the tree (with ./ // variants, duplicates, missing names) and the complete listing of the tree. non-trivial := '
                 'populate: >= 2 of {multi-component name, +=, nesting, copy, pre-existing link} or a HARD_ERROR with one; '
                 'matcher: >= 3 different constructs on a tree with >= 3 reachable files; round trip (70 % of the passed populate runs whose d '
